@@ -63,7 +63,7 @@ CLAIMS = {
             "Not claimed: all of Display/Debug/LowerHex/UpperHex/Octal/Binary (core::fmt does not finish under CBMC "
             "even at 8 bits); strings longer than 4 bytes; non-ASCII input; symbolic bases for the digit iterators."),
     "C10": ('5/C10',
-            "add_mod's add/compare/conditional-subtract logic for ALL (a, b, m) at widths {1,7,64,65,127,128,129,250} with reduce_mod abstracted to 'any residue below m'; reduce_mod's plumbing for ALL (a, m) with div_rem stubbed; reduce_mod, add_mod end-to-end on every (a, b, m) at 2 and 8 bits (thorough: mul_mod at {1,2,3,4,7,8}, pow_mod with exponent < 8 at {1,2,7,8}) with the real code; pow_mod on every (a, e, m) at {3,8} bits (thorough {2,4,7}) compositionally with mul_mod replaced by its specification; inv_mod on every (a, m) at {1,3} bits (thorough 2,4,5,6,8) with the real Lehmer/Euclid code: Some(x) with x < m and a*x = 1 (mod m) exactly when m >= 2 and gcd(a, m) = 1.",
+            "add_mod's add/compare/conditional-subtract logic for ALL (a, b, m) at widths {1,7,64,65,127,128,129,250} with reduce_mod abstracted to 'any residue below m'; reduce_mod's plumbing for ALL (a, m) with div_rem stubbed; reduce_mod, add_mod end-to-end on every (a, b, m) at 2 and 8 bits (thorough: mul_mod at {1,2,3,4,7,8} - 3 and 4 bits 710-790 s each -, pow_mod with exponent < 8 at {1,2,7,8}) with the real code; pow_mod on every (a, e, m) at {3,4} bits (thorough 2) compositionally with mul_mod replaced by its specification; inv_mod on every (a, m) at {1,3} bits (thorough 2, 4) with the real Lehmer/Euclid code: Some(x) with x < m and a*x = 1 (mod m) exactly when m >= 2 and gcd(a, m) = 1.",
             'Outside: mul_mod/pow_mod/inv_mod value correctness above 8 bits (multi-limb reduction runs through the Knuth division kernels, see C14).'),
     "C16": ('5/C16',
             'alloy-rlp, fastrlp 0.3/0.4 (bytes = minimal big-endian RLP string, length() exact, decode(encode) = v), SSZ and borsh (BYTES little-endian bytes, lengths, round trip), SCALE fixed form (prefix + LE bytes, size_hint and max_encoded_len are upper bounds, round trip), SCALE compact (four modes, size_hint bound, also on a 264-bit type), DER (canonical INTEGER TLV, value_len) for ALL values at widths {0,1,7,8,16,60,64,65,72,128}; serde binary form (capturing Serializer + binary visitor), primitive-types U128/U256/H128/H256, bytemuck Pod/Zeroable, postgres to_sql->from_sql for BOOL/INT2/4/8/OID/MONEY/BYTEA/BIT/VARBIT at 16 bits (thorough 8, 65); postgres NUMERIC wire format (ndigits, weight, sign, dscale, base-10000 digits with trailing zero digits stripped) for every value at 16 bits (thorough: 32 bits, and the NUMERIC round trip at 16 bits), by a constructive oracle that builds the value from symbolic base-10000 digits.',
@@ -85,10 +85,10 @@ CLAIMS = {
             "Not covered: Num::from_str_radix, zeroize, swap_bytes at widths that are not a multiple of 8 (documented as not "
             "well-defined), PrimInt::pow for exponents >= 2^BITS (panics, DESIGN 7). Rotations use amounts 0..=65535."),
     "C11": ('5/C11',
-            'mul_redc and square_redc at N = 1 on EVERY odd modulus 3..=255 (composite moduli with zero divisors included) and every a, b < m: r < m and r * 2^64 = a * b (mod m); plus mul_redc on an 11-free-bit lattice around the carry thresholds: m = {2^62-32, 2^62, 2^63-32, 2^63, 2^64-32} + 2x+1, a, b = small or m-1-small, inv from an independent Newton iteration: the result is < m and equals (a*b + k*m)/2^64 reduced once, k = a*b*inv mod 2^64; witnesses for the subtract-taken and extra-carry paths are required. Thorough: square_redc and Uint::{mul_redc,square_redc} on the same lattice.',
-            'Narrow, stated: N >= 2, and 64-bit moduli off the lattice (20 free bits did not finish in 900 s: three dependent 64x64 products per row and a debug assertion that needs (v*inv)*m = v*(inv*m)).'),
+            'N = 1: mul_redc on EVERY odd modulus 3..=63 (thorough 3..=127) and square_redc on every odd modulus 3..=255, composite moduli with zero divisors included, every a, b < m: r < m and r * 2^64 = a * b (mod m); mul_redc on an 11-free-bit lattice around the carry thresholds (m = {2^62-32, 2^62, 2^63-32, 2^63, 2^64-32} + 2x+1, a, b = small or m-1-small, inv from an independent Newton iteration): the result is < m and equals (a*b + k*m)/2^64 reduced once; witnesses for the subtract-taken and extra-carry paths are required. N = 2: square_redc(a) = mul_redc(a, a) and result < m on a 14-free-bit lattice (limbs near 0, 2^62, 2^63, 2^64-1). Thorough: square_redc and Uint::{mul_redc,square_redc} on the N = 1 lattice.',
+            'Narrow, stated: the N = 2 harness is differential only (it does not fix the common value), N >= 3, and 64-bit moduli off the lattice (20 free bits did not finish in 900 s: three dependent 64x64 products per row and a debug assertion that needs (v*inv)*m = v*(inv*m)).'),
     "C12": ('5/C12',
-            "gcd, lcm, gcd_extended and LehmerMatrix::from + apply on EVERY operand pair at widths {1,3} bits (thorough: 2, 4 and the widths above that finish) with the real code: gcd equals Euclid's result (gcd(0,0) = 0, gcd(a,0) = a); lcm = Some(a*b/gcd) exactly when it fits, Some(0) with a zero operand, None otherwise; gcd_extended returns the gcd and cofactors with a*x - b*y = g (sign) or b*y - a*x = g (not sign) modulo 2^BITS; the update matrix for a >= b is the identity or maps (a, b) to (c, d) with c >= d, d < b and the same gcd. At these widths LehmerMatrix::from is from_u64 (the complete 64-bit extended Euclid).",
+            "gcd, lcm, gcd_extended and LehmerMatrix::from + apply on EVERY operand pair at widths {1,3} bits (thorough: 2, 4, 5 for every function, 8 for gcd, 6 and 8 for the matrix) with the real code: gcd equals Euclid's result (gcd(0,0) = 0, gcd(a,0) = a); lcm = Some(a*b/gcd) exactly when it fits, Some(0) with a zero operand, None otherwise; gcd_extended returns the gcd and cofactors with a*x - b*y = g (sign) or b*y - a*x = g (not sign) modulo 2^BITS; the update matrix for a >= b is the identity or maps (a, b) to (c, d) with c >= d, d < b and the same gcd. At these widths LehmerMatrix::from is from_u64 (the complete 64-bit extended Euclid).",
             'Narrow, stated: widths above 8 bits, and therefore the 128-bit prefix path (from_u64_prefix / from_u128_prefix, pinned unreachable by a panicking stub) and the full-precision Euclid fallback, are outside: each loop iteration of from_u64 is two 64-bit dividers and six 64-bit multipliers, and the loop bound grows with the width (4 bits: 5 min per harness).'),
     "C13": ('5/C13',
             'all five pow forms for every (base, exponent): real code at 1 bit (wrapping_pow/pow also at 2, 3 bits), and at {2,3,4,7,8} bits compositionally with overflowing_mul/wrapping_mul replaced by their specification (which C02 decides against the real multipliers at the same widths): value mod 2^BITS, overflow flag exactly when a^e >= 2^BITS, 0^0 = 1; generic-base log/checked_log on every (value, base) at {2,3,4} bits and log10/checked_log10 at 4 bits (compositional: multiplier specification, exact exp2, table-exact log2 on 1..=255): floor(log_b v), None exactly for v = 0 or b < 2; log2/checked_log2 at {1,2,3,4,7,8,64,65,128,250} and log10/checked_log10 below 4 bits for ALL values; log2(0)/log10(0) and root(degree 0) panic.',
@@ -142,7 +142,7 @@ CLAIMS = {
             "canonical and equal to the value the input denotes (reference decoder in the harness), canonical-form "
             "decoders re-encode to exactly the consumed bytes.",
             "Bounded: inputs up to BYTES+8 bytes (property asks +16); quick tier widths {0,12,60,65} and heavy "
-            "decoders at {12,65} only; der::Decode::from_der's TLV header parser, serde_json/bincode front ends, "
+            "decoders (scale_fixed, der_value, pg BIT/VARBIT) at {12} only (65 bits in thorough); der::Decode::from_der's TLV header parser, serde_json/bincode front ends, "
             "num-bigint TryFrom and strings longer than 3 bytes are outside reach (measured, DESIGN 5/C17); "
             "alloc::fmt::format is stubbed (error-message formatting is not the subject); the compact decoder runs "
             "with Uint::from_limbs_slice over-approximated (only its accept/reject outcome is affected)."),
